@@ -167,9 +167,11 @@ def replay(obj):
 LEVEL_TEXT = ('Proof on the Gallina model of pre_parse, for all texts over the alphabet and all indent sizes: first content line at depth 0 and, for '
               'consecutive non-blank lines, deeper -> exactly one more level, same indentation -> same depth, less -> never deeper '
               '(C12_nesting_follows_indentation); a tab equals indent_size spaces anywhere and whitespace around the text is irrelevant, as '
-              'equalities of pre_parse outputs and hence of everything downstream (C12_tab_is_spaces, C12_outer_whitespace_irrelevant). The '
-              'model is tied to parser.py by the pre stage (exhaustive for short indentation sequences). Trailing-space, indentation-scaling '
-              'and blank-line invariance are decided end to end by metamorphic runs on the implementation (partial).')
+              'equalities of pre_parse outputs and hence of everything downstream (C12_tab_is_spaces, C12_outer_whitespace_irrelevant); multiplying '
+              'all indentation of a cleaned text by any constant k >= 1 gives the same pre-parsed text, because the indentation pass is invariant '
+              'under any strictly monotone renumbering of the levels (C12_indent_scaling). The model is tied to parser.py by the pre stage '
+              '(exhaustive for short indentation sequences). Trailing-space and blank-line invariance are decided end to end by metamorphic runs '
+              'on the implementation, which also re-check scaling (partial).')
 LEVEL_NOTE = ('Trusted: Coq kernel, gen_tables_parser.py, hand model PreParse.v tied by differential run, extraction + driver. The nesting '
               'theorem holds for the repaired pre_parse (fix: commit in /repo); the metamorphic part is a search, not a theorem.')
-TECHNIQUE = 'Rocq proof (stack invariant: top of stack = level of the last line) + differential run + metamorphic end-to-end search'
+TECHNIQUE = 'Rocq proof (stack invariant: top of stack = level of the last line; invariance of the indentation pass under monotone renumbering) + differential run + metamorphic end-to-end search'
